@@ -121,6 +121,61 @@ def run(tier, seed):
                         f"[{info['form']}/{info['ar']} {info['verb']}; {info['ka']}{', ' + info['kb'] if info['kb'] else ''}; {info['diff']}]")
         key = (info["form"], info["ar"], info["verb"], info["ka"], info["kb"], info["diff"], info["numeric_only"])
         clusters.setdefault(key, []).append(info)
+    # second and third route, in ONE long-lived interpreter: (2) the operands are values held by variables, bound once and used
+    # by every case - an adverb must leave its operands alone; (3) the source with literal operands is the body of a function
+    # that is called twice - the second call must return what the first returned (literals are part of the parsed program)
+    bad_src = {x["src"] for items in clusters.values() for x in items}
+    K = new_interp()
+    ops, order = {}, []
+    for c in cases:
+        for o in ([c["a"]] if c["ar"] == 1 else [c["a"], c["b"]]):
+            key = json.dumps(o, sort_keys=True)
+            if key not in ops:
+                ops[key] = (f"u{len(ops)}", o)
+                order.append(key)
+                K(f"u{len(ops) - 1}::{canon.render(o)}")
+    bound = {key: canon.canon(K(ops[key][0])) for key in order}
+    nroute = 0
+
+    def report(c, src, how, got, exc, diff):
+        info = {"form": c["form"], "ar": c["ar"], "verb": vname(c["f"]), "vkind": c["f"]["k"], "ka": kind(c["a"]),
+                "kb": kind(c["b"]) if c["ar"] == 2 else None, "diff": diff, "src": src, "numeric_only": False, "char1_only": False,
+                "expected": canon.show(c["exp"]), "observed": canon.show(got) if got["t"] not in ("exc", "x", "b", "f") else str(got),
+                "exception": exc}
+        info["what"] = (f"{src} {how} gives {info['observed']}{' (' + exc + ')' if exc else ''}; evaluated once from literals it gives "
+                        f"the value of the expansion, {info['expected']}")
+        clusters.setdefault((info["form"], info["ar"], info["verb"], info["ka"], info["kb"], diff, False), []).append(info)
+
+    def ev1(src):
+        try:
+            return canon.canon(K(src)), None
+        except BaseException as e:   # noqa
+            return {"t": "exc", "v": type(e).__name__}, f"{type(e).__name__}: {str(e)[:90]}"
+    for n, c in enumerate(cases):
+        src = source(c)
+        if src in bad_src:
+            continue
+        f = vtext(c["f"]) + ADV[c["form"]]
+        na = ops[json.dumps(c["a"], sort_keys=True)][0]
+        vsrc = f"{f}({na})" if c["ar"] == 1 else f"({na}){f}({ops[json.dumps(c['b'], sort_keys=True)][0]})"
+        got, exc = ev1(vsrc)
+        nroute += 1
+        if not canon.same(c["exp"], got):
+            report(c, src, "with its operands held by variables of a long-lived interpreter", got, exc, "via-variable")
+            continue
+        K(f"g::{{{src}}}")
+        ev1("g()")
+        got, exc = ev1("g()")
+        nroute += 1
+        if not canon.same(c["exp"], got):
+            report(c, src, "as the body of a function, at the second call,", got, exc, "second-call")
+    for key in order:
+        name, o = ops[key]
+        now = canon.canon(K(name))
+        if not canon.same(bound[key], now):
+            c0 = {"form": "(operand)", "ar": 1, "f": {"k": "op", "v": "(any)"}, "a": o, "exp": bound[key]}
+            report(c0, f"{name}::{canon.render(o)}", "(an operand held by a variable) after all cases were evaluated", now, None, "operand-mutated")
+    ev.cov["cases_through_variables_and_second_calls"] = nroute
     for key, items in sorted(clusters.items(), key=lambda kv: str(kv[0])):
         info = dict(items[0])
         info["cluster_size"] = len(items)
@@ -133,7 +188,7 @@ def run(tier, seed):
     ev.cov["forms_covered"] = sorted(f"{a}/{b}" for a, b in forms)
     ev.cov["exhaustive"] = True
     ev.cov["rule"] = ("every adverb form x verb (8 operators, 5 dyadic and 9 monadic functions incl. a projection and Python callables, "
-                      "10 adverb-modified verbs for chains) x operand (pair) of KgAdvCases.tla whose expansion stays in the verbs' domains; "
+                      "15 adverb-modified verbs for chains) x operand (pair) of KgAdvCases.tla whose expansion stays in the verbs' domains; "
                       "non-trivial = the mapped / folded operand has >= 2 elements")
     for c in cases[:1] + cases[len(cases) // 2:len(cases) // 2 + 1]:
         ev.sample({"source": source(c), "expansion_value": canon.show(c["exp"])})
